@@ -3698,6 +3698,13 @@ EB_API EbErrorType svt_av1_enc_send_picture(
     EbEncHandle          *enc_handle_ptr = (EbEncHandle*)svt_enc_component->p_component_private;
     EbObjectWrapper      *eb_wrapper_ptr;
 
+    // a picture comes with all three planes (a header without picture, e.g. the EOS buffer, has p_buffer == NULL)
+    if (p_buffer != NULL && p_buffer->p_buffer != NULL) {
+        const EbSvtIOFormat *io_ptr = (const EbSvtIOFormat *)p_buffer->p_buffer;
+        if (io_ptr->luma == NULL || io_ptr->cb == NULL || io_ptr->cr == NULL)
+            return EB_ErrorBadParameter;
+    }
+
     // Take the buffer and put it into our internal queue structure
     svt_get_empty_object(
         enc_handle_ptr->input_buffer_producer_fifo_ptr,
@@ -3806,7 +3813,7 @@ EB_API EbErrorType svt_av1_get_recon(
     EbBufferHeaderType   *p_buffer)
 {
     EbErrorType           return_error = EB_ErrorNone;
-    if (svt_enc_component == NULL || p_buffer == NULL)
+    if (svt_enc_component == NULL || p_buffer == NULL || p_buffer->p_buffer == NULL)
         return EB_ErrorBadParameter;
 
     EbEncHandle          *enc_handle = (EbEncHandle*)svt_enc_component->p_component_private;
@@ -3819,6 +3826,11 @@ EB_API EbErrorType svt_av1_get_recon(
 
         if (eb_wrapper_ptr) {
             EbBufferHeaderType* obj_ptr = (EbBufferHeaderType*)eb_wrapper_ptr->object_ptr;
+            // the caller states the capacity of its buffer in n_alloc_len
+            if (obj_ptr->p_buffer && p_buffer->n_alloc_len < obj_ptr->n_filled_len) {
+                svt_release_object((EbObjectWrapper  *)eb_wrapper_ptr);
+                return EB_ErrorBadParameter;
+            }
             copy_output_recon_buffer(
                 p_buffer,
                 obj_ptr);
